@@ -87,6 +87,8 @@ pub struct Ctx {
     pub counter: std::sync::atomic::AtomicU64,
     /// another build of the same sources (other cargo profile) that computes the references, if given
     pub ref_exe: Option<String>,
+    /// set when identical plans were seen to answer differently (racy code under simulation): replays retry
+    pub racy: std::sync::atomic::AtomicU64,
 }
 
 /// What the environment shim saw the child ask for after start-up.
@@ -306,6 +308,7 @@ pub fn reference(ctx: &Ctx, key: &Key, dump: bool) -> Result<(RefObs, Option<Str
                 tmp_root: ctx.tmp_root.clone(),
                 counter: std::sync::atomic::AtomicU64::new(0),
                 ref_exe: None,
+                racy: std::sync::atomic::AtomicU64::new(0),
             };
             run_child(&alt, &Env::pristine(), &sched, &dur)?
         }
@@ -807,6 +810,7 @@ pub struct Stats {
     pub dim_hostname_uid: u64,
     pub dim_cwd_subdir: u64,
     pub long_processes: u64,
+    pub racy_sessions: u64,
 }
 
 fn key_hash(k: &Key) -> u64 {
@@ -839,7 +843,15 @@ pub fn check_session(ctx: &Ctx, refs: &RefCache, s: &Session, st: &mut Stats, se
         match run_session(ctx, &s.segments) {
             Ok(outs2) => {
                 st.selfchecked += outs2.len() as u64;
-                if outs.iter().zip(outs2.iter()).any(|(a, b)| a.raw != b.raw) {
+                // what the code under simulation answered, without the simulator's own layout probe
+                let answers = |o: &ChildOut| o.obs.iter().map(|x| (x.k, x.class.clone(), x.digest.clone())).collect::<Vec<_>>();
+                if outs.iter().zip(outs2.iter()).any(|(a, b)| answers(a) != answers(b)) {
+                    // every seam is owned and the plan is identical, yet the *expansions* differ: that is the
+                    // code's own nondeterminism (e.g. racing threads inside an expansion) — a violation, which
+                    // the comparison with the references below reports; not a fault of the simulator
+                    st.racy_sessions += 1;
+                    ctx.racy.fetch_add(1, std::sync::atomic::Ordering::Relaxed);
+                } else if outs.iter().zip(outs2.iter()).any(|(a, b)| a.raw != b.raw) {
                     st.nondeterministic.push(s.index);
                 }
             }
@@ -970,15 +982,26 @@ pub struct Replay {
 /// Does the last request of `sched` (the probe) diverge from the pristine reference, when run after
 /// `prefix` segments over one fresh durable directory?
 fn probe_diverges(ctx: &Ctx, refs: &RefCache, prefix: &[Segment], env: &Env, sched: &Schedule) -> Option<bool> {
-    let dur = Durable::new(ctx, "min");
-    for seg in prefix {
-        run_child(ctx, &seg.env, &seg.sched, &dur).ok()?;
+    // up to three attempts: if the code under simulation is itself racy, one run may happen to agree
+    let mut any = None;
+    for _ in 0..3 {
+        let dur = Durable::new(ctx, "min");
+        for seg in prefix {
+            run_child(ctx, &seg.env, &seg.sched, &dur).ok()?;
+        }
+        let out = run_child(ctx, env, sched, &dur).ok()?;
+        let last = out.obs.last()?;
+        let key = &sched.keys[last.k];
+        let r = refs.get(ctx, key).ok()?;
+        if r.class != last.class || r.digest != last.digest {
+            return Some(true);
+        }
+        any = Some(false);
+        if ctx.racy.load(std::sync::atomic::Ordering::Relaxed) == 0 {
+            break;
+        }
     }
-    let out = run_child(ctx, env, sched, &dur).ok()?;
-    let last = out.obs.last()?;
-    let key = &sched.keys[last.k];
-    let r = refs.get(ctx, key).ok()?;
-    Some(r.class != last.class || r.digest != last.digest)
+    any
 }
 
 pub fn minimise(ctx: &Ctx, refs: &RefCache, d: &Divergence, s: &Session, seed: u64) -> Replay {
@@ -1241,18 +1264,29 @@ pub fn replay(ctx: &Ctx, rp: &Replay) -> Result<(bool, Value), String> {
         }
         run_child(ctx, &rp.env, sched, &dur)
     };
-    let out = run(&rp.sched)?;
+    // up to eight attempts: racy code under simulation need not diverge on every run
+    let mut out = run(&rp.sched)?;
+    let mut attempts = 1;
+    let (r, rt, diverges) = loop {
+        let o = out.obs.get(rp.probe).ok_or("probe index out of range")?;
+        let key = &rp.sched.keys[o.k];
+        let (r, rt) = reference(ctx, key, true)?;
+        let d = r.class != o.class || r.digest != o.digest;
+        if d || attempts >= 8 {
+            break (r, rt, d);
+        }
+        attempts += 1;
+        out = run(&rp.sched)?;
+    };
     let o = out.obs.get(rp.probe).ok_or("probe index out of range")?;
     let key = &rp.sched.keys[o.k];
-    let (r, rt) = reference(ctx, key, true)?;
-    let diverges = r.class != o.class || r.digest != o.digest;
     let mut dump = rp.sched.clone();
     dump.dump_text = true;
     let text = run(&dump).ok().and_then(|out| out.obs.get(rp.probe).and_then(|o| o.text.clone()));
     Ok((
         diverges,
         json!({"key": key, "expected": {"class": r.class, "digest": r.digest, "text": rt},
-               "observed": {"class": o.class, "digest": o.digest, "text_of_a_second_run_with_dump": text},
+               "observed": {"class": o.class, "digest": o.digest, "text_of_a_second_run_with_dump": text}, "attempts": attempts,
                "environment_seams_consulted": {"getrandom": out.seams.getrandom, "clock": out.seams.clock, "getpid": out.seams.getpid, "getenv": out.seams.names}}),
     ))
 }
@@ -1315,6 +1349,7 @@ pub fn run_batch(ctx: Arc<Ctx>, corpus: Arc<Corpus>, refs: Arc<RefCache>, seed: 
         total.dim_hostname_uid += s.dim_hostname_uid;
         total.dim_cwd_subdir += s.dim_cwd_subdir;
         total.long_processes += s.long_processes;
+        total.racy_sessions += s.racy_sessions;
         total.entropy_seeds.extend(s.entropy_seeds);
         total.layouts.extend(s.layouts);
         for (k, v) in s.key_contexts {
